@@ -93,6 +93,7 @@ func Load(repoDir, goos, goarch string, patterns ...string) (*Prog, error) {
 	prog, _ := ssautil.AllPackages(p.All, ssa.InstantiateGenerics)
 	prog.Build()
 	p.SSA = prog
+	loadedProgs = append(loadedProgs, p)
 	return p, nil
 }
 
